@@ -275,7 +275,12 @@ func (e *C12) Run(c *core.Ctx, idx int) {
 			[]byte("\x00\x00\x00\x18ftypheic\x00\x00\x00\x00mif1heic"),                        // HEIF
 			[]byte("\x00\x00\x00\x18ftypmif1\x00\x00\x00\x00mif1heic"),                        // HEIF, generic major brand
 		}
-		h := heads[(k/8)%len(heads)]
+		h := append([]byte(nil), heads[(k/8)%len(heads)]...)
+		if h[4] == 'f' && r.Bool() {
+			// the size the ftyp box announces is not the search's business: it may cover the filler,
+			// the block, or more than the stream holds
+			binary.BigEndian.PutUint32(h, uint32(r.Pick(0x19, 0x20, 0x40, 0x1000, 0x2000, 0xffff))) // (sizes the sniffer still takes for an ftyp box: two leading zero bytes)
+		}
 		fillN := r.Pick(0, 1, 2, 3, 24, 100, 301, 4090)
 		filler := r.Bytes(fillN)
 		gen.ScrubTIFFSig(filler, 0, len(filler))
